@@ -17,6 +17,7 @@ static long     cl_frames;
 static int cl_budget = -1, cl_stopped;
 static void (*cl_hook)(int i);               /* called before the i-th request of the transfer (interleaving with another server) */
 static int  cl_hook_i;
+static int cl_crc;        /* the client announces CRC support in its block initiate requests (cc bit); a server without CRC support answers sc = 0 and everything goes on as usual */
 static void cl_send(int srv, const uint8_t *req)
 {
     if (cl_budget == 0) { cl_stopped = 1; cl_nresp = 1; memset(&cl_resp[0], 0, sizeof cl_resp[0]); cl_resp[0].d[0] = 0x80; return; }
@@ -87,7 +88,7 @@ static int cl_blk_dl(int srv, uint16_t idx, uint8_t sub, const uint8_t *d, uint3
 {
     uint8_t f[8]; uint32_t done = 0; int tx = 0, guard = 0;
     cl_blk_tx_count = 0;
-    cl_req(f, (uint8_t)(0xC0 | (announce ? 2 : 0)), idx, sub);
+    cl_req(f, (uint8_t)(0xC0 | (announce ? 2 : 0) | (cl_crc ? 4 : 0)), idx, sub);
     if (announce) w_put32(f + 4, len);
     cl_send(srv, f);
     if (cl_check_abort()) return CL_ABORT;
@@ -167,7 +168,7 @@ static int cl_blk_ul(int srv, uint16_t idx, uint8_t sub, uint8_t blksize, uint8_
 {
     uint8_t f[8]; uint32_t got = 0; int blk = 0; uint8_t bs = blksize; int finished = 0; uint32_t lastlen = 7; int refused_here;
     cl_blk_blocks = 0;
-    cl_req(f, 0xA0, idx, sub); f[4] = blksize; f[5] = 0;
+    cl_req(f, (uint8_t)(0xA0 | (cl_crc ? 4 : 0)), idx, sub); f[4] = blksize; f[5] = 0;
     cl_send(srv, f);
     if (cl_check_abort()) return CL_ABORT;
     if (cl_nresp != 1 || (cl_resp[0].d[0] & 0xFB) != 0xC2) CL_ERR("initiate block upload: unexpected response");
